@@ -1,29 +1,22 @@
 #!/bin/bash
 # Must-fail corpus: applies every seeded change under /verif/seeded to a scratch worktree of /repo's
 # HEAD (one at a time), runs the quick check of its property against that worktree, reverts, and
-# records whether the check reported a violation. /repo itself is never touched, so this can run while
-# contracts are being edited; it uses a private copy of the verifier binary for the same reason.
+# records whether the check reported a violation. /repo itself is never touched and the inputs of the
+# checks are snapshotted (tools/scratch_env.sh), so this can run while contracts are being edited.
 # usage: selftest.sh [seed ids...]   (default: all)   -> writes /verif/seeded/RESULTS.tsv
-cd /verif
-# runs on deliberately broken trees must not overwrite /verif/evidence (which describes the tree as it is)
-export VERIF_EVIDENCE_DIR=$(mktemp -d)
-wt=$(mktemp -d /tmp/selftest-wt-XXXXXX)
-git -C /repo worktree add -q --detach "$wt" HEAD || { echo "cannot create worktree"; exit 3; }
-trap 'git -C /repo worktree remove --force "$wt" 2>/dev/null; rm -rf "$wt" "$VERIF_EVIDENCE_DIR"; git -C /repo worktree prune' EXIT
-[ -x bin/govc ] || (cd govc && GOFLAGS=-mod=mod GOPROXY=off go build -o ../bin/govc .)
-cp bin/govc "$VERIF_EVIDENCE_DIR/govc"
-export GOVC_REPO="$wt" GOFLAGS=-mod=mod GOPROXY=off
-ids="$@"; [ -z "$ids" ] && ids=$(ls seeded | grep -E '^C[0-9]+-m[0-9]+$')
+. /verif/tools/scratch_env.sh
+ids="$@"; [ -z "$ids" ] && ids=$(ls /verif/seeded | grep -E '^C[0-9]+-m[0-9]+$')
 out=/verif/seeded/RESULTS.tsv; tmp=$(mktemp)
 for id in $ids; do
   prop=${id%%-*}
   if ! git -C "$wt" apply --check /verif/seeded/$id/patch.diff 2>/dev/null; then echo -e "$id\t$prop\tpatch-does-not-apply\t-" >> $tmp; echo "$id patch-does-not-apply"; continue; fi
   git -C "$wt" apply /verif/seeded/$id/patch.diff
-  res=$("$VERIF_EVIDENCE_DIR/govc" check -prop $prop -tier quick 2>&1); rc=$?
+  res=$("$govc" check -prop $prop -tier quick 2>&1); rc=$?
   git -C "$wt" checkout -q -- . ; git -C "$wt" clean -fdq
   ob=$(echo "$res" | grep -o "obligation=[^ ]*" | head -3 | sed 's/obligation=//' | tr '\n' ',' | sed 's/,$//')
-  if [ $rc -ne 0 ] && echo "$res" | grep -q "VIOLATION\|ENGINE-ERROR"; then verdict=detected; else verdict=MISSED; fi
+  if [ $rc -ne 0 ] && echo "$res" | grep -q "VIOLATION"; then verdict=detected; elif echo "$res" | grep -q "ENGINE-ERROR"; then verdict=engine-error; else verdict=MISSED; fi
   echo -e "$id\t$prop\t$verdict\t$ob" >> $tmp
   echo "$id $verdict $ob"
+  rm -rf "$snap/out"/*
 done
 if [ $# -eq 0 ]; then mv $tmp $out; else cat $tmp; rm -f $tmp; fi
